@@ -149,6 +149,8 @@ pub fn special_items() -> Vec<Item> {
         lark("special-after-regex", "start: /[ab]+/ <a> \"c\"", &["ab", "abc", "c"]),
         lark("special-alt-loop", "start: (\"a\" | <a> | \"bc\")+ \"b\"", &["abcab", "ab"]),
         lark("special-optional", "start: W <a>? W\nW: /[a-c]+/", &["abc", "cab"]),
+        // the end-of-sequence token named by the grammar in the middle of a sentence
+        lark("special-eos-mid", "start: \"a\" <eos> \"b\" \"c\" | \"b\"", &["abc", "b"]),
         lark("special-between-json", "start: j <a> j\nj: %json {\"type\":\"array\",\"items\":{\"type\":\"null\"},\"maxItems\":1}", &["[null]", "[]"]),
     ];
     for i in v.iter_mut() {
